@@ -24,12 +24,13 @@ Fixpoint chk_nodes (ms : list member) (t : tbl) (i : nat) (ks : list inode) (xs 
 Definition exn_code (e : exn) : N :=
   match e with TypeError => 0 | IndexError => 1 | KeyError => 2 | OutOfFuel => 3 end.
 
-(* ((variant, members), inl exception-code | inr (nodes, (invalid_paths, entrycache keys))) *)
-Definition chk_index (c : (variant * list member) * (N + (list xnode * (list str * list str)))) : bool :=
+(* ((variant, members), exception | nodes, invalid_paths, entrycache keys) *)
+Inductive xout := XExc (code : N) | XOk (nodes : list xnode) (inval eckeys : list str).
+Definition chk_index (c : (variant * list member) * xout) : bool :=
   let '((v, ms), out) := c in
   match populate v ms, out with
-  | Err e, inl code => exn_code e =? code
-  | Ok (t, cc), inr (xs, (inval, eckeys)) =>
+  | Err e, XExc code => exn_code e =? code
+  | Ok (t, cc), XOk xs inval eckeys =>
       chk_nodes ms t 0 (t_kinds t) xs &&
       set_eq_str (c_inv cc) inval && set_eq_str (map fst (c_ec cc)) eckeys
   | _, _ => false
@@ -53,11 +54,12 @@ Fixpoint run_ops (ms : list member) (t : tbl) (c : caches) (zlen : nat) (calls :
   end.
 
 (* (((variant, members), (zlen, calls)), results of the same calls on one real VFSZip) *)
-Definition chk_vfs (c : ((variant * list member) * (nat * list (vop * str))) * option (list vres)) : bool :=
+Inductive vout := VRaised | VRes (rs : list vres).
+Definition chk_vfs (c : ((variant * list member) * (nat * list (vop * str))) * vout) : bool :=
   let '(((v, ms), (zlen, calls)), out) := c in
   match populate v ms, out with
-  | Err _, None => true
-  | Ok (t, cc), Some rs => list_eqb vres_eqb (run_ops ms t cc zlen calls) rs
+  | Err _, VRaised => true
+  | Ok (t, cc), VRes rs => list_eqb vres_eqb (run_ops ms t cc zlen calls) rs
   | _, _ => false
   end.
 
